@@ -79,8 +79,19 @@ def generate(r, tier):
     # fault-free histories may run the sync the way the build system does: `kconfgen --output cdep_tree <dir>` (all
     # directories of a step in one kconfgen run, the configuration handed over in a defaults file)
     sc["via"] = "kconfgen" if r.random() < 0.3 else "lib"
+    # the build system may keep the recorded state elsewhere and leave a symbolic link in the dependency directory
+    sc["autoconf_symlink"] = r.random() < 0.25
     sc["crash_step"] = r.randrange(0, len(steps)) if r.random() < 0.75 else None
     sc["rerun_same"] = r.random() < 0.4  # insert a rerun on the unchanged configuration right after the crashed sync
+    if sc["crash_step"] is not None and r.random() < 0.5:
+        # what a lost record hurts most: options that go from set to unset *after* the interrupted sync
+        bools = [n for n in names if alltab[n]["type"] == kgen.BOOL]
+        if bools:
+            extra = [[r.choice(bools), "n"] for _ in range(r.randint(1, 3))]
+            if sc["crash_step"] + 1 < len(steps):
+                steps[sc["crash_step"] + 1]["set"] = steps[sc["crash_step"] + 1]["set"] + extra
+            else:
+                steps.append({"set": extra, "ver": steps[-1]["ver"]})
     sc["torn"] = [0.0] + [round(r.random(), 3) for _ in range(r.choice([1, 1, 2]))]
     return sc
 
@@ -264,6 +275,7 @@ def execute(sc, ctx):
 
     touched = {}
     states = [new_state() for _ in range(ndirs)]
+    statedir = os.path.join(sb, "state")
 
     def account(t0):
         for tick, kind, path, _info in fs.ops_since(t0):
@@ -318,6 +330,15 @@ def execute(sc, ctx):
         if chg_h:
             ctx.counters["probe:changed-between-completed-syncs"] += 1
         state.update(H=H, R=R, aliases=aliases, done_tick=fs.tick, clean=True, tag=None)
+        ac = os.path.join(dpaths[d], "auto.conf")
+        if sc.get("autoconf_symlink") and os.path.isfile(ac) and not os.path.islink(ac) and not state.get("linked"):
+            # (done by the harness, outside the journal: somebody moved the file and left a link)
+            os.makedirs(statedir, exist_ok=True)
+            tgt = os.path.join(statedir, "auto.conf.%d" % d)
+            os.replace(ac, tgt)
+            os.symlink(tgt, ac)
+            state["linked"] = True
+            ctx.counters["probe:auto.conf-is-a-symlink"] += 1
 
     def run_from(start, crash_k, torn):
         """Run steps[start:], crashing the first of them at (crash_k, torn) if given."""
@@ -379,8 +400,11 @@ def execute(sc, ctx):
         for d in range(ndirs):
             sd = os.path.join(sb, "snap%d" % d)
             if os.path.isdir(dpaths[d]):
-                shutil.copytree(dpaths[d], sd)
+                shutil.copytree(dpaths[d], sd, symlinks=True)
             snaps.append(sd)
+        snap_statedir = os.path.join(sb, "snap_state")
+        if os.path.isdir(statedir):
+            shutil.copytree(statedir, snap_statedir)
         snap_state = copy.deepcopy(states)
         snap_touched = dict(touched)
         snap_tick, snap_journal = fs.tick, len(fs.journal)
@@ -389,7 +413,10 @@ def execute(sc, ctx):
             for d in range(ndirs):
                 shutil.rmtree(dpaths[d], ignore_errors=True)
                 if os.path.isdir(snaps[d]):
-                    shutil.copytree(snaps[d], dpaths[d])
+                    shutil.copytree(snaps[d], dpaths[d], symlinks=True)
+            shutil.rmtree(statedir, ignore_errors=True)
+            if os.path.isdir(snap_statedir):
+                shutil.copytree(snap_statedir, statedir)
             states[:] = copy.deepcopy(snap_state)
             touched.clear()
             touched.update(snap_touched)
